@@ -447,12 +447,121 @@ def generate():
     return "".join(out), failures
 
 
+
+# ---------------------------------------------------------------------------------------------------------------------
+# closed forms of curve.f90 specialize_curve (2 nodes, inline) and specialize_curve_quadratic (3 nodes): translated to the GENERIC
+# arithmetic record (Base/Ops.v), one coordinate row at a time (the Fortran acts on whole columns with scalar coefficients), so that
+# `= specialize K [v1; ..] start end` is a ring identity Coq can check for every ring (Theory/Twins.v)
+def ops_expr(src, env):
+    toks = re.findall(r"\d+\.\d*(?:_dp)?|\d+(?:_dp)?|nodes\(:,\s*\d+\)|[A-Za-z_][A-Za-z_0-9]*|[-+*()]", src.replace(" ", ""))
+    if "".join(toks) != src.replace(" ", ""):
+        raise Bad("closed form: cannot tokenize %r" % src)
+    pos = [0]
+
+    def peek():
+        return toks[pos[0]] if pos[0] < len(toks) else None
+
+    def take():
+        t = toks[pos[0]]
+        pos[0] += 1
+        return t
+
+    def add():
+        a = mul()
+        while peek() in ("+", "-"):
+            op = take()
+            a = "(%s K %s %s)" % ("oadd" if op == "+" else "osub", a, mul())
+        return a
+
+    def mul():
+        a = prim()
+        while peek() == "*":
+            take()
+            a = "(omul K %s %s)" % (a, prim())
+        return a
+
+    def prim():
+        t = take()
+        if t == "(":
+            a = add()
+            if take() != ")":
+                raise Bad("closed form: parenthesis")
+            return a
+        if re.match(r"^\d", t):
+            v = Fraction(t.replace("_dp", ""))
+            if v.denominator != 1 or v < 0:
+                raise Bad("closed form: non-integer literal %s" % t)
+            return "(o1 K)" if v == 1 else "(ofn K %d)" % v.numerator
+        m = re.match(r"^nodes\(:,(\d+)\)$", t)
+        if m:
+            return "v%s" % m.group(1)
+        if t in env:
+            return env[t]
+        raise Bad("closed form: unknown name %r" % t)
+    out = add()
+    if pos[0] != len(toks):
+        raise Bad("closed form: trailing tokens in %r" % src)
+    return out
+
+
+def gen_specialize_closed():
+    lines = logical_lines(open(os.path.join(F90, "curve.f90")).read())
+    out = ["(* GENERATED by translate/f902v_fn.py from curve.f90 (specialize_curve, specialize_curve_quadratic) -- do not edit *)\n",
+           "From Coq Require Import List.\nFrom BZ Require Import Base.Ops.\nImport ListNotations.\n\nSection F90Closed.\nContext {T : Type} (K : Ops T).\n"]
+    # quadratic
+    body = find_routine(lines, "specialize_curve_quadratic")
+    env = {"start": "start", "end_": "end_"}
+    lets, cols = [], {}
+    for l in body[1:]:
+        if re.match(r"^(integer|real)\b", l):
+            continue
+        m = re.match(r"^new_nodes\(:,\s*(\d+)\)\s*=\s*(.*)$", l)
+        if m:
+            cols[int(m.group(1))] = ops_expr(m.group(2), env)
+            continue
+        m = re.match(r"^(\w+)\s*=\s*(.*)$", l)
+        if m:
+            lets.append((m.group(1), ops_expr(m.group(2), env)))
+            env[m.group(1)] = m.group(1)
+            continue
+        raise Bad("specialize_curve_quadratic: unsupported statement %r" % l)
+    if sorted(cols) != [1, 2, 3]:
+        raise Bad("specialize_curve_quadratic: columns %s" % sorted(cols))
+    out.append("Definition f90_specialize_curve_quadratic (start end_ v1 v2 v3 : T) : list T :=\n%s  [%s].\n" % (
+        "".join("  let %s := %s in\n" % lv for lv in lets), ";\n   ".join(cols[k] for k in (1, 2, 3))))
+    # linear: the inline branch of specialize_curve; also check the dispatch shape
+    body = find_routine(lines, "specialize_curve")
+    txt = "\n".join(body)
+    m = re.search(r"if \(num_nodes == 2\) then\n(.*?)\nelse if \(num_nodes == 3\) then\ncall specialize_curve_quadratic\(.*?\)\nelse\ncall specialize_curve_generic\(.*?\)\nend if", txt, re.S)
+    if not m:
+        raise Bad("specialize_curve: dispatch shape")
+    cols = {}
+    for l in m.group(1).splitlines():
+        mm = re.match(r"^new_nodes\(:,\s*(\d+)\)\s*=\s*(.*)$", l)
+        if not mm:
+            raise Bad("specialize_curve: linear branch %r" % l)
+        cols[int(mm.group(1))] = ops_expr(mm.group(2), {"start": "start", "end_": "end_"})
+    if sorted(cols) != [1, 2]:
+        raise Bad("specialize_curve: linear columns")
+    out.append("Definition f90_specialize_curve_linear (start end_ v1 v2 : T) : list T :=\n  [%s;\n   %s].\n" % (cols[1], cols[2]))
+    out.append("End F90Closed.\n")
+    return "".join(out)
+
+
 def main(outdir):
     text, failures = generate()
     path = os.path.join(outdir, "F90Fn.v")
     old = open(path).read() if os.path.exists(path) else None
     if old != text:
         open(path, "w").write(text)
+    try:
+        ctext = gen_specialize_closed()
+    except (Bad, OSError, AttributeError, IndexError, KeyError, ValueError) as exc:
+        ctext = "(* TRANSLATION FAILED: %s *)\nUntranslatable.\n" % str(exc).replace("*)", "* )")
+        failures.append(("specialize closed forms", str(exc)))
+    cpath = os.path.join(outdir, "F90Closed.v")
+    if (open(cpath).read() if os.path.exists(cpath) else None) != ctext:
+        open(cpath, "w").write(ctext)
     for n, w in failures:
         print("f902v_fn: UNTRANSLATABLE %s: %s" % (n, w))
     print("f902v_fn: wrote F90Fn.v (%s)" % ("changed" if old != text else "unchanged"))
